@@ -71,16 +71,16 @@ class RandomStyle(Style):
                 cls = rng.choice([A, P])
                 num = rng.choice([0, 1, 2, 3, 4, 5, 7, 9, 10, 11, 12, 30, 31, 200, 1024])
                 if rng.random() < 0.3:
-                    return ber.tlv(cls, True, num, inner)
-                return ber.tlv(cls, False, num, payload)
+                    return ber.tlv(cls, True, num, inner, rng.choice([0, 0, 1, 2, 4]))
+                return ber.tlv(cls, False, num, payload, rng.choice([0, 0, 1, 2, 4]))
             if r < 0.65:
                 nums = [5] if where in ("control", "sasl") else [5, 5, 2, 10, 12]
                 num = rng.choice(nums)
                 return ber.tlv(U, False, num, b"" if num == 5 else (payload or b"\x00"))
-            num = rng.choice([12, 20, 25, 99, 1024])
+            num = rng.choice([12, 20, 25, 31, 99, 128, 1024])
             if rng.random() < 0.5:
-                return ber.tlv(C, True, num, inner)
-            return ber.tlv(C, False, num, payload)
+                return ber.tlv(C, True, num, inner, rng.choice([0, 0, 1, 2, 4]))
+            return ber.tlv(C, False, num, payload, rng.choice([0, 0, 1, 2, 4]))
         return b""
 
 
